@@ -22,6 +22,7 @@ NOTE = {}
 def main():
     checks = []
     na = []
+    also = {}
     for pid in ALL:
         f = VERIF / "props" / f"{pid.lower()}.py"
         if pid in NA:
@@ -38,6 +39,8 @@ def main():
         mod = importlib.import_module(f"props.{pid.lower()}")
         man = getattr(mod, "MANIFEST", {})
         meta = getattr(mod, "META", {})
+        for e in man.get("also", []):
+            also.setdefault(e, []).append(pid)
         entry = dict(
             property_id=pid,
             quick_cmd=f"./check.py {pid} --tier quick",
@@ -68,10 +71,10 @@ def main():
             add_only=True,
         ),
         engines=[
-            dict(name="symx", path="/verif/symx", serves_properties=[c["property_id"] for c in checks if "crosshair" not in c["engine"]],
+            dict(name="symx", path="/verif/symx", serves_properties=[c["property_id"] for c in checks if c["engine"] == "symx"],
                  kind_free_text="own path-forking symbolic executor (z3 5.1.0) that runs the repository's real functions with symbolic booleans/"
                                 "integers/reals and a symbolic numpy shim; obligations per path are discharged by z3; counterexamples replay on the real code"),
-            dict(name="crosshair", path="/verif/ch", serves_properties=[c["property_id"] for c in checks if "crosshair" in c["engine"]],
+            dict(name="crosshair", path="/verif/ch", serves_properties=sorted(also.get("crosshair", [])),
                  kind_free_text="CrossHair 0.0.110 symbolic execution (z3) of pure str/int functions, one condition per process under a fixed timeout"),
         ],
         checks=checks,
